@@ -230,6 +230,79 @@ def oracle_misc(ck, rng):
                      key={"site": "entry-points", "which": which}, oracle="nowedge_union_entry_points")
 
 
+def oracle_surface(ck, rng):
+    """rarely used entry points: argument validation of the tilt models, single_axis(None), the tilt_range attribute, the
+    model-level mask_missing_wedge, the backend-level mask (same as the y-axis model), and repeated calls for one (non-cubic) box:
+    the mask of a box is a function of (tilt, orientation, shape), not of how many masks were made before"""
+    from acryo.tilt import single_axis, dual_axis, no_wedge, NoWedge
+    from acryo.alignment import ZNCCAlignment
+    from acryo.backend import Backend
+    from scipy.spatial.transform import Rotation
+    fails = []
+
+    def expect(cond, site, what, inp=None):
+        if not cond:
+            fails.append((site, what, inp))
+
+    def raises(fn, *exc):
+        try:
+            fn()
+        except exc:
+            return True
+        except Exception:
+            return False
+        return False
+
+    try:
+        for bad in ((30, 30), (40, -40), (-91, 50), (-50, 95)):
+            for ax in "xy":
+                expect(raises(lambda: single_axis(bad, ax), ValueError), "validation", f"single_axis({bad}, {ax!r}) accepted", {"tilt": bad})
+        expect(raises(lambda: single_axis((-60, 60), "z"), ValueError), "validation", "single_axis(axis='z') accepted", {})
+        expect(isinstance(single_axis(None), NoWedge), "validation", "single_axis(None) is not the no-wedge model", {})
+        expect(tuple(single_axis((-35.5, 62), "x").tilt_range) == (-35.5, 62), "validation", "tilt_range attribute differs from the given range", {})
+        nit = 3 if ck.tier == "quick" else 20
+        for it in range(nit):
+            shape = tuple(int(x) for x in rng.integers(4, 11, size=3))
+            if len(set(shape)) == 1:
+                shape = (shape[0], shape[1] + 1, shape[2] + 2)
+            tr = (float(rng.integers(-80, -10)), float(rng.integers(10, 80)))
+            rots = [Rotation.random(random_state=int(rng.integers(0, 2**31))) for _ in range(3)]
+            info = {"shape": shape, "tilt": tr}
+            xp = Backend()
+            first = {}
+            for rnd in range(4):
+                for j, r_ in enumerate(rots):
+                    for ax in "yx":
+                        m_ = np.asarray(single_axis(tr, ax).create_mask(r_, shape)) > 0
+                        if (j, ax) in first:
+                            expect(np.array_equal(m_, first[(j, ax)]), "repeat", f"call {rnd + 1} for the same tilt, orientation and box differs from the first "
+                                   f"({int((m_ != first[(j, ax)]).sum())} bins)", dict(info, axis=ax, call=rnd + 1))
+                        else:
+                            first[(j, ax)] = m_
+                    b_ = np.asarray(xp.asnumpy(xp.missing_wedge_mask(r_, tr, shape))) > 0
+                    expect(np.array_equal(b_, first[(j, "y")]), "backend-mask", f"Backend.missing_wedge_mask (call {rnd + 1}) differs from the y-axis tilt model in "
+                           f"{int((b_ != first[(j, 'y')]).sum())} bins", dict(info, call=rnd + 1))
+            tmpl = rng.normal(size=shape).astype(np.float32)
+            mdl = ZNCCAlignment(tmpl, tilt=single_axis(tr))
+            ft = np.fft.fftn(rng.normal(size=shape)).astype(np.complex64)
+            q = rots[0].as_quat()
+            got = np.asarray(mdl.mask_missing_wedge(ft, q))
+            expect(np.allclose(got, ft * first[(0, "y")]), "mask-missing-wedge", "model.mask_missing_wedge(ft, quat) is not ft times the wedge mask of that orientation", info)
+            du = np.asarray(dual_axis(tr, (tr[0] / 2, tr[1] / 2 + 5)).create_mask(rots[1], shape)) > 0
+            un = first[(1, "y")] | (np.asarray(single_axis((tr[0] / 2, tr[1] / 2 + 5), "x").create_mask(rots[1], shape)) > 0)
+            expect(np.array_equal(du, un), "dual-union", "dual_axis(range_y, range_x) is not the union of the y model of range_y and the x model of range_x", info)
+    except Exception as e:  # noqa
+        import traceback
+        fails.append(("raised", f"{type(e).__name__}: {e} at {traceback.format_exc().strip().splitlines()[-3].strip()}", {}))
+    ck.oracle_count("tilt_surface", 1, 1)
+    seen = set()
+    for site, what, inp in fails:
+        if site in seen:
+            continue
+        seen.add(site)
+        ck.violation(what=what, inp=inp, key={"site": "surface-" + site}, oracle="tilt_surface")
+
+
 def run(ck: common.Check):
     ck.design_ref = "DESIGN.md §6 C08"
     ck.trusted_base = TB
@@ -243,6 +316,7 @@ def run(ck: common.Check):
     corr_grid(ck, rng)
     corr_masks(ck, rng)
     oracle_misc(ck, rng)
+    oracle_surface(ck, np.random.default_rng(ck.seed + 80808))
 
 
 def replay(data):
